@@ -318,7 +318,7 @@ def run_filtering(map_on, mode, mlist):
         if out or name.startswith("claim_"):
             return out
         return out
-    return xstate.bfs(S(), lambda s: list(evs), step2, lambda s: common.canon_key([s.x, s.r]), max_states=20000, nontrivial=lambda s: len(s.x.source_to_iso_name) > 0, stop_after=6)
+    return xstate.bfs(S(), lambda s: list(evs), step2, lambda s: common.canon_key([s.x, s.r]), max_states=20000, nontrivial=lambda s: len(getattr(s.x, "source_to_iso_name", ())) > 0, stop_after=6)
 
 
 def config_checks():
